@@ -190,7 +190,7 @@ impl<'s, 'r, R: Read, S: Borrow<Schema>> SchemaAwareDeserializer<'s, 'r, R, S> {
     ///
     /// This does not check the current schema.
     fn read_bytes(&mut self, length: usize) -> Result<Vec<u8>, Error> {
-        let mut buf = vec![0; length];
+        let mut buf = vec![0; crate::util::safe_len(length)?];
         self.reader
             .read_exact(&mut buf)
             .map_err(Details::ReadBytes)?;
